@@ -24,7 +24,8 @@ CONSTANTS
   Ops,
   FullThird,    \* TRUE: the whole product.  FALSE (quick tier): in 3-allele records the third value is tied to the
                 \* first two, R-filtered records have 1 or 3 alleles (the 2-allele vectors are prefixes of the tied
-                \* triples) and an R filter comes with the prior tag (same kept / masked, plus the weights)
+                \* triples), an R filter comes with the prior tag (same kept / masked, plus the weights) and the
+                \* REFMASKED flag is varied on records with fewer than three alleles
   CrossTag      \* TRUE: also (AF filter, RF tag)
 
 AllOps == {"=", "==", ">", ">=", "<", "<=", "!="}
@@ -133,22 +134,25 @@ Init ==
   /\ ty \in (IF cl = "int" THEN {"Integer", "Float"} ELSE {"Float"})
   /\ \E n \in 1..MaxAlleles : \E fld \in {"RF", "AF"} : \E tag \in {"none", "RF"} : \E rm \in BOOLEAN :
      \E op \in Ops : \E t \in 1..Len(ThrsTab(cl)) :
-       /\ (fld = "AF" /\ tag = "RF") => CrossTag
+       /\ (fld = "AF" /\ tag = "RF") => (CrossTag /\ ~rm)      \* (its frequency vectors: rotations of the table)
        /\ (~FullThird /\ fld = "RF") => (n # 2 /\ tag = "RF")
+       /\ (~FullThird /\ n = 3) => ~rm
        /\ x = [n |-> n, fld |-> fld, op |-> op, thr |-> ThrsTab(cl)[t], tag |-> tag, refmasked |-> rm,
                hasRF |-> FALSE, rf |-> <<>>, hasAF |-> FALSE, af |-> <<>>, setRF |-> FALSE, setAF |-> FALSE]
 
-(* value vectors of length len: all of them, or (len = 3, ~FullThird) the third tied to the first two *)
-Vectors(len) ==
+(* value vectors of length len: "full" all of them; "tied" (len = 3) the third value tied to the first two;
+   "rot" the K rotations of the value table (the frequency vectors of the cross product) *)
+Vectors(len, mode) ==
   LET V == ValsTab(cl)
       K == Len(V)
-  IN  IF len = 3 /\ ~FullThird
+  IN  IF mode = "rot" THEN {[p \in 1..len |-> V[((i + p - 2) % K) + 1]] : i \in 1..K}
+      ELSE IF len = 3 /\ mode = "tied"
       THEN {<<V[i], V[j], V[((i + j) % K) + 1]>> : i \in 1..K, j \in 1..K}
       ELSE {[p \in 1..len |-> V[iv[p]]] : iv \in [1..len -> 1..K]}
 
 SetRF ==
   /\ stage = "fields" /\ NeedRF /\ ~x.setRF
-  /\ \/ \E v \in Vectors(x.n) : x' = [x EXCEPT !.hasRF = TRUE, !.rf = v, !.setRF = TRUE]
+  /\ \/ \E v \in Vectors(x.n, IF x.fld = "AF" THEN "rot" ELSE IF FullThird THEN "full" ELSE "tied") : x' = [x EXCEPT !.hasRF = TRUE, !.rf = v, !.setRF = TRUE]
      \/ /\ x.tag = "none"
         /\ x' = [x EXCEPT !.setRF = TRUE]
   /\ UNCHANGED <<stage, cl, ty, exp>>
@@ -157,7 +161,7 @@ SetRF ==
 (* assemble) write it as '.'                                                 *)
 SetAF ==
   /\ stage = "fields" /\ NeedAF /\ ~x.setAF
-  /\ \/ \E v \in Vectors(x.n - 1) : x' = [x EXCEPT !.hasAF = TRUE, !.af = v, !.setAF = TRUE]
+  /\ \/ \E v \in Vectors(x.n - 1, "full") : x' = [x EXCEPT !.hasAF = TRUE, !.af = v, !.setAF = TRUE]
      \/ x' = [x EXCEPT !.setAF = TRUE]
   /\ UNCHANGED <<stage, cl, ty, exp>>
 
